@@ -2,9 +2,9 @@ package main
 
 // Stream `recovery` (property C15). Two kinds of cases (one item per case):
 //
-//	recovery \t P \t <value> \t <progress N|H|B> \t <scope route|mw|noroute> \t <namehex=valuehex,…|->
+//	recovery \t P \t <value> \t <progress N|H|B|F|S|R> \t <scope route|mw|noroute> \t <namehex=valuehex,…|->
 //	    a handler (route handler / inner middleware / no-route handler) behind the Recovery middleware sends nothing /
-//	    a 202 header / header + partial body and panics with <value>; the request carries the given headers (set
+//	    a 202 header / header + partial body / a flush only (F) / WriteString (S) / ReadFrom (R) and panics with <value>; the request carries the given headers (set
 //	    directly in the map, so non-canonical names survive).
 //	    value: error wabort abort str nil custom opsys:<hex> opplain:<hex> wrapop:<hex>
 //	recovery \t T \t <updates|view|handle|update> \t <value> \t <n ops> \t <p<k> | e<k> | ok>
@@ -197,6 +197,13 @@ func runRecovery(fields []string) string {
 		case "B":
 			c.Writer().WriteHeader(202)
 			_, _ = c.Writer().Write([]byte("partial"))
+		case "F":
+			// a flush before anything was written commits the implicit 200 header (e.g. the start of an event stream)
+			_ = c.Writer().FlushError()
+		case "S":
+			_, _ = c.Writer().WriteString("partial")
+		case "R":
+			_, _ = c.Writer().ReadFrom(strings.NewReader("partial"))
 		}
 		eventsAtPanic = len(rw.events)
 		panic(val)
@@ -252,7 +259,11 @@ func runRecovery(fields []string) string {
 				}
 			}
 		}()
-		f.ServeHTTP(rw, req)
+		if progress == "F" {
+			f.ServeHTTP(recFlusher{rw}, req)
+		} else {
+			f.ServeHTTP(rw, req)
+		}
 	}()
 	status := 0
 	for _, ev := range rw.events {
@@ -461,12 +472,22 @@ func recHeaders(r *Rng, k int) string {
 	return strings.Join(parts, ",")
 }
 
+// recFlusher: the client connection can be flushed; as in net/http a flush commits the implicit 200 header
+type recFlusher struct{ *recWriter }
+
+func (w recFlusher) Flush() {
+	if !w.wrote {
+		w.recWriter.WriteHeader(200)
+	}
+	w.events = append(w.events, "f")
+}
+
 func genRecovery(r *Rng, tier string, n int, emit func(string)) {
 	emitted := 0
 	// every value x progress x scope once, with random headers
 	k := 0
 	for _, v := range recValues {
-		for _, p := range []string{"N", "H", "B"} {
+		for _, p := range []string{"N", "H", "B", "F", "S", "R"} {
 			for _, s := range []string{"route", "mw", "noroute"} {
 				if emitted >= n*2/3 {
 					break
@@ -505,7 +526,7 @@ func genRecovery(r *Rng, tier string, n int, emit func(string)) {
 	}
 	for emitted < n {
 		k++
-		emit("recovery\tP\t" + Pick(r, recValues) + "\t" + Pick(r, []string{"N", "H", "B"}) + "\t" +
+		emit("recovery\tP\t" + Pick(r, recValues) + "\t" + Pick(r, []string{"N", "H", "B", "F", "S", "R"}) + "\t" +
 			Pick(r, []string{"route", "mw", "noroute"}) + "\t" + recHeaders(r, k))
 		emitted++
 	}
